@@ -95,8 +95,9 @@ class Density:
 
     def grad(self, q):
         if self.spec.get("alias"):
-            # standard normal target written the natural way (`lambda q: q`): the gradient IS the argument object
-            return q
+            # standard normal target written the natural way (`lambda q: q`): the gradient IS the argument object,
+            # or (`lambda q: q[:]`, `np.asarray(q)`-style wrappers) a view of it
+            return q[:] if self.spec["alias"] == "view" else q
         g = self.A @ q + self.b + self.c * q**3
         for a, w, phi in self.ridges:
             g = g + a * _cos(w @ q + phi) * w
@@ -294,6 +295,9 @@ class Constraint:
             Q = 0.5 * (Q + Q.T)
             self.rows.append((Q, A(r["r"]), r["s"], r.get("beta", 0.0), A(r.get("u", [0.0] * n))))
         self.m = len(self.rows)
+        # sphere written the natural way: jacob_constr = lambda q: q[None] returns a VIEW of its argument
+        self.view = bool(spec.get("view")) and self.m == 1 and np.array_equal(self.rows[0][0], np.eye(n)) and \
+            not np.any(self.rows[0][1]) and self.rows[0][3] == 0.0
 
     @property
     def curved(self):
@@ -304,6 +308,8 @@ class Constraint:
                          for Q, r, s, beta, u in self.rows])
 
     def jac(self, q):
+        if self.view:
+            return q[None, :]
         return np.array([Q @ q + r + beta * _cos(u @ q) * u for Q, r, s, beta, u in self.rows])
 
     def hessians(self, q):
@@ -337,6 +343,15 @@ def project_to_manifold(con: Constraint, q0, iters=60, tol=1e-13):
         if not np.all(np.isfinite(q)) or np.max(np.abs(q)) > 1e3:
             return None
     return q if np.max(np.abs(con.value(q))) < 1e-11 else None
+
+
+def gram_ill_conditioned(J, Minv, kmax=1e4, gmin=1e-2):
+    """True where the constraint Jacobian is (nearly) rank deficient: Gram matrix J M^-1 J' ill conditioned or, for a
+    single row as well, nearly zero (e.g. the sphere |q|^2/2 = s near q = 0, where log|Gram| has a singularity and
+    finite-difference references with a fixed step are not trustworthy)."""
+    G = J @ Minv @ J.T
+    ev = np.linalg.eigvalsh(0.5 * (G + G.T))
+    return not np.all(np.isfinite(ev)) or ev[0] < gmin or ev[-1] / ev[0] > kmax
 
 
 def project_to_cotangent(J, Minv, p):
@@ -649,7 +664,8 @@ def density_spec(draw, n, walls=False, max_ridges=2):
     kind = draw(st.sampled_from(["full", "full", "full", "isotropic", "diagonal", "flat", "full", "stdnormal-alias"]))
     if kind == "stdnormal-alias":
         # f(q) = q'q/2 whose gradient function returns the very array it was passed
-        return {"dim": n, "a0": 1.0, "b": [0.0] * n, "c": [0.0] * n, "B": None, "ridges": [], "alias": True}
+        return {"dim": n, "a0": 1.0, "b": [0.0] * n, "c": [0.0] * n, "B": None, "ridges": [],
+                "alias": draw(st.sampled_from(["identity", "view"]))}
     spec = {"dim": n, "a0": draw(unit(0.3, 2.0)), "b": draw(vec(n)), "c": draw(vec(n, 0.0, 0.5)),
             "B": None, "ridges": []}
     if kind == "full":
@@ -715,6 +731,10 @@ def _metric_spec_plain(draw, n, types=None, allow_down=False):
 
 @st.composite
 def constraint_spec(draw, n, max_rows=None, curved=None):
+    if curved is not False and draw(st.integers(0, 7)) == 0:
+        # the sphere |q|^2 / 2 = s with the Jacobian written `lambda q: q[None]` (a view of the argument)
+        return {"dim": n, "rows": [{"Q": np.eye(n).ravel().tolist(), "r": [0.0] * n, "s": draw(unit(0.2, 1.5)),
+                                    "beta": 0.0, "u": [0.0] * n}], "view": True}
     m = draw(st.integers(1, max(1, min(3, n - 1) if max_rows is None else max_rows)))
     rows = []
     for _ in range(m):
